@@ -102,7 +102,7 @@ def run(ctx, replay=None):
     bf = ctx.path("behaviours.txt")
     open(bf, "w").write("".join(behs))
     tf = ctx.path("trace.ndjson")
-    ctx.record(exe, bf, tf, timeout=3000)
+    ctx.record(exe, bf, tf, timeout=3000, parallel=vlib.NCPU)
     rejs = ctx.validate("TraceTopo", tf, nshards=32 if thorough else 16, timeout=3000)
     ctx.handle_rejections(rejs, behs, replay_fn)
     return ctx.finish(
